@@ -80,13 +80,20 @@ NormalChains == {Tup(ch) : ch \in {z \in SeqsUpTo(Layers, MaxChain) : DistinctCl
 ExcChains == {Tup(ks) : ks \in {z \in SeqsUpTo(Range(ExcKindSeq), MaxExcChain) : Len(z) >= 1 /\ DistinctClasses([i \in 1..Len(z) |-> LayerOf(z[i])])}}
 KindChain(ks) == Tup([i \in 1..Len(ks) |-> LayerOf(ks[i])])
 \* the failing value as the first / the second positional argument, as keyword a / b, among *args, among **kw
+\* (a failing value INSIDE a list is not handed to f as an argument: no failure)
 ExcCallsFor(sig) == {cc \in {[pos |-> <<VStr(m)>>, kw |-> <<>>] : m \in Range(FailMarks)}
                            \cup {[pos |-> <<VInt(1), VStr(m)>>, kw |-> <<>>] : m \in Range(FailMarks)}
                            \cup {[pos |-> <<VInt(1), VInt(2), VStr(m)>>, kw |-> <<>>] : m \in Range(FailMarks)}
                            \cup {[pos |-> <<>>, kw |-> <<<<"a", VStr(m)>>>>] : m \in Range(FailMarks)}
                            \cup {[pos |-> <<VInt(1)>>, kw |-> <<<<"b", VStr(m)>>>>] : m \in Range(FailMarks)}
                            \cup {[pos |-> <<VInt(1)>>, kw |-> <<<<"x", VStr(m)>>>>] : m \in Range(FailMarks)}
-                           \cup {[pos |-> <<VInt(1)>>, kw |-> <<>>], [pos |-> <<Quiet>>, kw |-> <<>>]} :
+                           \cup {[pos |-> <<VInt(1)>>, kw |-> <<>>], [pos |-> <<Quiet>>, kw |-> <<>>]}
+                           \* arguments that are mutable objects of the caller (each call is made twice with the same objects,
+                           \* which must be afterwards what they were before)
+                           \cup {[pos |-> <<VInt(1), VLst(<<VInt(5)>>)>>, kw |-> <<>>],
+                                 [pos |-> <<VInt(1)>>, kw |-> <<<<"b", VLst(<<VInt(5), VStr("bad")>>)>>>>],
+                                 [pos |-> <<VInt(1)>>, kw |-> <<<<"x", VDict(<<<<"p", VInt(1)>>>>)>>>>],
+                                 [pos |-> <<VInt(1), VInt(2), VLst(<<>>)>>, kw |-> <<>>]} :
                        Valid(sig, DropUndeclared(sig, cc))}         \* valid for f, or for kwargs_support(f)
 ExcCallsOf == [sig \in BaseSigs |-> ExcCallsFor(sig)]
 
